@@ -76,7 +76,7 @@ def run(name, checks):
     try:
         for c in checks:
             t0 = time.time()
-            rc, out = sh(f'./check {c} --tier quick', cwd=VERIF, env=dict(os.environ))
+            rc, out = sh(f'./check {c} --tier quick', cwd=VERIF, env=dict(os.environ, VERIF_EVIDENCE_DIR='/tmp/seed-evidence'))
             viol = [l for l in out.split('\n') if l.startswith('VIOLATION')]
             detail = [l.strip() for l in out.split('\n') if l.startswith('  ') and 'input=' in l][:2]
             results[c] = dict(exit=rc, violations=len(viol), wall_s=round(time.time() - t0, 1), detail=detail,
